@@ -110,7 +110,7 @@ func site(pc uintptr) string {
 	return fmt.Sprintf("%s:%d(%s)", file, line, name)
 }
 
-func (r *runtimeState) recordAccessLocked(addr uintptr, keep any, what string, write bool, pc uintptr) {
+func (r *runtimeState) recordAccessLocked(addr uintptr, keep any, write bool, pc uintptr) {
 	t := r.current
 	if t == nil || r.race == nil {
 		return
@@ -118,7 +118,7 @@ func (r *runtimeState) recordAccessLocked(addr uintptr, keep any, what string, w
 	r.race.accesses++
 	sh := r.race.mem[addr]
 	if sh == nil {
-		sh = &shadow{keep: keep, what: what}
+		sh = &shadow{keep: keep, what: fmt.Sprintf("%T", keep)}
 		r.race.mem[addr] = sh
 	}
 	me := access{tid: t.id, clock: t.vc.get(t.id), pc: pc}
@@ -176,7 +176,7 @@ func R[T any](p *T) *T {
 	}
 	rs.mu.Lock()
 	if rs.active && !rs.over && rs.race != nil {
-		rs.recordAccessLocked(uintptr(unsafe.Pointer(p)), p, fmt.Sprintf("%T", p), false, callerPC())
+		rs.recordAccessLocked(uintptr(unsafe.Pointer(p)), p, false, callerPC())
 	}
 	rs.mu.Unlock()
 	return p
@@ -189,7 +189,7 @@ func W[T any](p *T) *T {
 	}
 	rs.mu.Lock()
 	if rs.active && !rs.over && rs.race != nil {
-		rs.recordAccessLocked(uintptr(unsafe.Pointer(p)), p, fmt.Sprintf("%T", p), true, callerPC())
+		rs.recordAccessLocked(uintptr(unsafe.Pointer(p)), p, true, callerPC())
 	}
 	rs.mu.Unlock()
 	return p
@@ -206,7 +206,7 @@ func MapR[M ~map[K]V, K comparable, V any](m M) M {
 	}
 	rs.mu.Lock()
 	if rs.active && !rs.over && rs.race != nil {
-		rs.recordAccessLocked(mapAddr(m), m, fmt.Sprintf("%T", m), false, callerPC())
+		rs.recordAccessLocked(mapAddr(m), m, false, callerPC())
 	}
 	rs.mu.Unlock()
 	return m
@@ -219,7 +219,7 @@ func MapW[M ~map[K]V, K comparable, V any](m M) M {
 	}
 	rs.mu.Lock()
 	if rs.active && !rs.over && rs.race != nil {
-		rs.recordAccessLocked(mapAddr(m), m, fmt.Sprintf("%T", m), true, callerPC())
+		rs.recordAccessLocked(mapAddr(m), m, true, callerPC())
 	}
 	rs.mu.Unlock()
 	return m
